@@ -586,6 +586,9 @@ def systematic_offers():
     out.append([elem([], name="x-webkit-deflate-frame")])
     out.append([elem([], name="x-webkit-deflate-frame"), elem([(P_CMWB, None)])])
     out.append([elem([]), elem([(P_CMWB, None)])])
+    # an offer that ends in ';' (outside the ABNF, hence 'ambiguous': any answer is legal, no memory error is)
+    for txt in (PMD + ";", PMD + "; ", PMD + "; client_max_window_bits;", PMD + "; server_no_context_takeover; "):
+        out.append([dict(name=PMD, params=[], text=txt, amb=True)])
     out.append([])
     return out
 
@@ -1070,6 +1073,7 @@ def sc_nego(case, res):
         viol, neg = judge_negotiation(p["level"], elements, c.headers)
         res.viol.extend(viol)
         exts = c.headers.get("sec-websocket-extensions", [])
+        holder["resp"] = exts
         st = c.state or {}
         classes = sorted(set(classify(e).split(":")[0] for e in elements))
         if not exts:
@@ -1108,8 +1112,15 @@ def sc_nego(case, res):
             c2s_messages(res, c, neg, rng, pls2, "t", p["level"], "single", "sync", 0,
                          "negotiated-parameters:" + ("window<15" if neg["cmwb"] < 15 else "window=15"),
                          zlevel=9)
-    run_conn(res, body, case["bin"], shape)
-    res.sample = dict(level=p["level"], headers=headers, response=None, ops=[o[:100] for o in (res.ops or [])[:3]])
+    hold = {}
+
+    def body2(holder):
+        try:
+            body(holder)
+        finally:
+            hold["resp"] = holder.get("resp")
+    run_conn(res, body2, case["bin"], shape)
+    res.sample = dict(level=p["level"], headers=headers, response=hold.get("resp"), ops=[o[:100] for o in (res.ops or [])[:3]])
 
 
 def sc_strict(case, res):
@@ -1170,7 +1181,7 @@ def gen_cases(tier, seed):
         cs = rng.getrandbits(48)
         if fixed is not None:
             cs = int(hashlib.sha1(repr(fixed).encode()).hexdigest()[:12], 16)
-        cases.append(dict(kind=scen, seed=cs, params=params))
+        cases.append(dict(kind=scen, seed=cs, params=params, fixed=fixed is not None))
 
     # --- s2c: tiny payloads, one message per process (each may wreck the stream)
     tiny = list(range(0, 17)) + [20, 24, 32]
@@ -1358,6 +1369,12 @@ def main(tier="quick"):
     workers = min(16, os.cpu_count() or 4)
     with multiprocessing.Pool(workers) as pool:
         results = pool.map(run_one, [cases[i] for i in order], chunksize=4)
+    # the replay written for a key is the first case that showed it: fixed witnesses and small inputs first
+    def simplicity(r):
+        p = r.case.get("params", {})
+        size = sum(n for _, n in p.get("payloads", [])) + (p.get("payload") or (0, 0))[1] + len(" ".join(p.get("headers", [])))
+        return (0 if r.case.get("fixed") else 1, size)
+    results.sort(key=simplicity)
     per = collections.Counter()
     for r in results:
         per[r.case["kind"]] += 1
